@@ -629,6 +629,13 @@ func (n node) compact(lo uint64) int {
 	zeroOut(n[keyOffset(left):keyOffset(right)])
 	n.setNumKeys(left)
 
+	// The max key is always retained, because the parent routes to this node by it. If its value
+	// is below lo, the key itself is deleted: keep only a placeholder (value zero), which Get and
+	// IterateKV treat as absent.
+	if left > 0 && n.val(left-1) < lo {
+		n.setAt(valOffset(left-1), 0)
+	}
+
 	// If the only key we have is the max key, and its value is less than lo, then we can indicate
 	// to the caller by returning a zero that it's OK to drop the node.
 	if left == 1 && n.key(0) == mk && n.val(0) < lo {
